@@ -71,10 +71,12 @@ fn gen_payload(rng: &mut Rng) -> String {
 
 /// geometry model of a payload: (declared raster w,h if 4 parameters), and whether some
 /// drawn pixel lies at a column >= declared width
-fn model_extent(payload: &str) -> (Option<(i64, i64)>, i64) {
+fn model_extent(payload: &str) -> (Option<(i64, i64)>, i64, Option<i64>) {
     let b = payload.as_bytes();
     let mut i = 0;
     let mut declared = None;
+    let mut declared3 = None;
+    let mut first_raster = true;
     let (mut x, mut max_x): (i64, i64) = (0, 0);
     while i < b.len() {
         let c = b[i];
@@ -98,6 +100,14 @@ fn model_extent(payload: &str) -> (Option<(i64, i64)>, i64) {
                 if nums.len() == 4 && declared.is_none() {
                     declared = Some((nums[2], nums[3]));
                 }
+                // the short form "Pan;Pad;Pn (only when it is the payload's only raster attribute, before any data)
+                if nums.len() == 3 && first_raster && max_x == 0 {
+                    declared3 = Some(nums[2]);
+                }
+                if !first_raster {
+                    declared3 = None;
+                }
+                first_raster = false;
                 continue;
             }
             b'#' => {
@@ -143,7 +153,7 @@ fn model_extent(payload: &str) -> (Option<(i64, i64)>, i64) {
         }
         i += 1;
     }
-    (declared, max_x)
+    (declared, max_x, declared3)
 }
 
 fn check_payload(ctx: &mut Ctx, case: &PayloadCase) {
@@ -167,7 +177,20 @@ fn check_payload(ctx: &mut Ctx, case: &PayloadCase) {
                 );
                 return;
             }
-            let (declared, max_x) = model_extent(&case.payload);
+            let (declared, max_x, declared3) = model_extent(&case.payload);
+            if let (None, Some(n)) = (declared, declared3) {
+                // three parameters declare one extent. The engine reads it as the picture height; the DEC manual calls the
+                // third parameter the horizontal extent. "Consistent with the declared size" is accepted under either reading
+                // (height == n, or width >= n); a picture that honours neither is not.
+                if (1..=2048).contains(&n) && h as i64 != n && (w as i64) < n {
+                    ctx.violation(
+                        "sixel-declared-extent-3",
+                        json!({"payload": case.payload, "declared": n, "width": w, "height": h, "widest_drawn_column": max_x}),
+                        json!({"payload": serde_json::to_value(case).unwrap()}),
+                    );
+                    return;
+                }
+            }
             if let Some((dw, dh)) = declared {
                 if (0..=2048).contains(&dw) && (0..=2048).contains(&dh) {
                     let bad_h = h as i64 != dh;
@@ -619,7 +642,7 @@ impl Prop for C14 {
         "C14"
     }
     fn rule(&self) -> &'static str {
-        "(payload) seeded sixel payloads over data characters, '!' repeats <= 500, '$', '-', '#' selects and RGB/HLS definitions, raster attributes smaller/equal/larger than the data, rows of unequal length: Sixel::parse_from must give picture_data.len()==width*height*4, and with a 4-parameter raster the declared height and (when no drawn pixel lies beyond it) width. (schedule) k<=4 real DCS sixel sequences are fed through the real ANSI parser; every decode thread blocks in the gate hook; for every completion order (k!) x every placement of update_sixel_threads polls (2^k) x 14 geometry classes the harness releases one decode at a time, waits for is_finished, optionally polls (on a helper thread; all decoders it could wait for are held by the harness, so not returning within 6 s but returning once the gates open = blocked; after 3 blocked polls a worker skips its remaining schedules), records (step, released, polled, result, queue length, images on screen in layer order) and an offline checker compares every record with the model 'fold arrivals in order over the longest finished prefix, newer image removes older ones it contains'. distinct_nontrivial = distinct (class, order, polls) schedules plus distinct (width,height,raster,newline) payload outcomes"
+        "(payload) seeded sixel payloads over data characters, '!' repeats <= 500, '$', '-', '#' selects and RGB/HLS definitions, raster attributes smaller/equal/larger than the data, rows of unequal length: Sixel::parse_from must give picture_data.len()==width*height*4, and with a 4-parameter raster the declared height and (when no drawn pixel lies beyond it) width; with a 3-parameter raster the one declared extent must be honoured as height (the engine's reading) or as minimum width (the DEC manual's). (schedule) k<=4 real DCS sixel sequences are fed through the real ANSI parser; every decode thread blocks in the gate hook; for every completion order (k!) x every placement of update_sixel_threads polls (2^k) x 14 geometry classes the harness releases one decode at a time, waits for is_finished, optionally polls (on a helper thread; all decoders it could wait for are held by the harness, so not returning within 6 s but returning once the gates open = blocked; after 3 blocked polls a worker skips its remaining schedules), records (step, released, polled, result, queue length, images on screen in layer order) and an offline checker compares every record with the model 'fold arrivals in order over the longest finished prefix, newer image removes older ones it contains'. distinct_nontrivial = distinct (class, order, polls) schedules plus distinct (width,height,raster,newline) payload outcomes"
     }
     fn meta(&self, ctx: &Ctx) -> Value {
         json!({"floor_evaluations": 2000, "floor_distinct": ctx.tier.pick(500u64, 3000u64), "watchdog_s": 120,
